@@ -4,6 +4,7 @@ package layout
 
 import (
 	"sort"
+	"strings"
 
 	"github.com/tsawler/tabula/model"
 	"github.com/tsawler/tabula/text"
@@ -391,10 +392,19 @@ func (d *BlockDetector) validateBlocks(blocks []Block) []Block {
 			continue
 		}
 
-		// Skip blocks that are too small
+		// Skip blocks that are too small - unless they carry text
 		if block.BBox.Width < d.config.MinBlockWidth ||
 			block.BBox.Height < d.config.MinBlockHeight {
-			continue
+			blank := true
+			for _, f := range block.Fragments {
+				if strings.TrimSpace(f.Text) != "" {
+					blank = false
+					break
+				}
+			}
+			if blank {
+				continue
+			}
 		}
 
 		valid = append(valid, block)
